@@ -9,8 +9,8 @@
 #include <sys/wait.h>
 #include "nanoisa/nvm_format.h"
 
-enum { FT_FLIP = 0, FT_TRUNC, FT_BURST, FT_EXTEND, FT_MAGIC, FT_VERSION, FT_TORN, FT_FLIPRANGE, FT_TRUNCRANGE, FT_NKINDS };
-static const char *ft_name[] = { "flip", "trunc", "burst", "extend", "magic", "version", "torn", "fliprange", "truncrange" };
+enum { FT_FLIP = 0, FT_TRUNC, FT_BURST, FT_EXTEND, FT_MAGIC, FT_VERSION, FT_TORN, FT_FLIPRANGE, FT_TRUNCRANGE, FT_HDRBITS, FT_BYTESWEEP, FT_NKINDS };
+static const char *ft_name[] = { "flip", "trunc", "burst", "extend", "magic", "version", "torn", "fliprange", "truncrange", "hdrbits", "bytesweep" };
 typedef struct Fault { int kind; long a, b; unsigned long c; int via; } Fault;   /* via: 0 standalone, 1 daemon */
 typedef struct SPlan { char prog[32]; int tok; int nf; Fault f[64]; bool sweep; } SPlan;
 
@@ -38,7 +38,9 @@ static void plan_gen(SPlan *P, uint64_t seed, const RunOpts *o) {
                 snprintf(P->prog, sizeof P->prog, "%s", corpus_prog(i)); P->tok = pass;
                 P->f[0] = (Fault){ FT_FLIPRANGE, (long)(NVM_HEADER_SIZE * 8 + idx * 512), (long)(NVM_HEADER_SIZE * 8 + (idx + 1) * 512 < m->n * 8 ? NVM_HEADER_SIZE * 8 + (idx + 1) * 512 : m->n * 8), 0, 0 };
                 P->f[1] = (Fault){ FT_TRUNCRANGE, (long)(idx * 64 < m->n ? idx * 64 : m->n), (long)((idx + 1) * 64 < m->n ? (idx + 1) * 64 : m->n), 0, 0 };
-                P->nf = 2; P->sweep = true; return;
+                { long b0 = (long)(NVM_HEADER_SIZE + idx * 64), b1 = b0 + 64 < (long)m->n ? b0 + 64 : (long)m->n;
+                  P->f[2] = (Fault){ FT_BYTESWEEP, b0, b1, 0, 0 }; }
+                P->nf = 3; P->sweep = true; return;
             }
             idx -= chunks;
         }
@@ -48,6 +50,8 @@ static void plan_gen(SPlan *P, uint64_t seed, const RunOpts *o) {
     Module *m = corpus_find(P->prog, P->tok);
     size_t n = m ? m->n : 64;
     P->nf = quick ? 40 : 60;
+    /* every run also tries all 255 alterations of each byte in a window of the body (bursts of up to 8 bits inside one byte) */
+    int nsweep = 1;
     for (int i = 0; i < P->nf; i++) {
         Fault *f = &P->f[i]; memset(f, 0, sizeof *f);
         uint32_t k = sim_rndn(100);
@@ -57,8 +61,18 @@ static void plan_gen(SPlan *P, uint64_t seed, const RunOpts *o) {
         else if (k < 72) { f->kind = FT_BURST; f->b = 2 + sim_rndn(31); f->a = (long)(NVM_HEADER_SIZE * 8 + sim_rndn((uint32_t)((n - NVM_HEADER_SIZE) * 8 - (uint32_t)f->b + 1))); f->c = (unsigned long)(sim_rnd() | 1); }
         else if (k < 86) { f->kind = FT_EXTEND; f->a = sim_rndn(3); f->b = 1 + sim_rndn(sim_rndn(4) == 0 ? 4096 : 64); f->c = (unsigned long)sim_rnd(); }
         else if (k < 92) { f->kind = FT_MAGIC; f->a = sim_rndn(4); f->c = 1 + sim_rndn(255); }
-        else if (k < 96) { f->kind = FT_VERSION; f->c = sim_rndn(4) == 0 ? 0 : 2 + sim_rndn(1000); }
+        else if (k < 94) { f->kind = FT_VERSION;
+            /* any value but the right one: small ones, single-bit neighbours of the right one, values that agree with it in their low half or low byte, random words */
+            static const uint32_t wide[] = { 0x00010001u, 0x80000001u, 0xFFFF0001u, 0x01000001u, 0x00000101u, 0x01000000u, 0x00010000u, 0xFFFFFFFFu };
+            uint32_t q = sim_rndn(5);
+            f->c = q == 0 ? 0 : q == 1 ? 2 + sim_rndn(1000) : q == 2 ? (NVM_FORMAT_VERSION ^ (1u << sim_rndn(32))) : q == 3 ? wide[sim_rndn(8)] : (unsigned long)(uint32_t)sim_rnd(); }
+        else if (k < 96) { f->kind = FT_HDRBITS; f->a = 8 * (long)sim_rndn(8); f->b = f->a + 8; }
         else { f->kind = FT_TORN; f->a = (long)sim_rndn((uint32_t)n); f->via = 0; }
+    }
+    for (int i = 0; i < nsweep && P->nf < 64 && n > NVM_HEADER_SIZE + 1; i++) {
+        Fault *f = &P->f[P->nf++]; memset(f, 0, sizeof *f);
+        f->kind = FT_BYTESWEEP; f->a = (long)(NVM_HEADER_SIZE + sim_rndn((uint32_t)(n - NVM_HEADER_SIZE)));
+        f->b = f->a + (quick ? 128 : 256); if (f->b > (long)n) f->b = (long)n;
     }
 }
 static void plan_print(SPlan *P, uint64_t seed, Buf *b) {
@@ -136,6 +150,7 @@ static Outcome consume_daemon(const uint8_t *d, size_t n) {
 }
 
 static uint64_t n_inst, n_collision, n_unchanged, kinds_done[FT_NKINDS], n_daemon;
+static uint64_t n_prefiltered, n_prefilter_accepted;
 static bool judge(Result *r, const char *what, const uint8_t *d, size_t n, const uint8_t *orig, size_t on, int via, long a, long b) {
     if (n == on && memcmp(d, orig, n) == 0) { n_unchanged++; return true; }
     if (n >= NVM_HEADER_SIZE) {
@@ -195,7 +210,7 @@ static void fam_run(uint64_t seed, const RunOpts *o, Result *r) {
     Ref *ref = ref_lookup(P.prog, P.tok);
     if (!m || !ref || !ref->valid) { strcpy(r->verdict, "skip"); return; }
     SimKnobs saved = K; sim_reset(); K = saved; sim_seed(seed ^ 0xC12ull);
-    g_daemon = NULL; n_inst = n_collision = n_unchanged = n_daemon = 0; memset(kinds_done, 0, sizeof kinds_done);
+    g_daemon = NULL; n_inst = n_collision = n_unchanged = n_daemon = 0; n_prefiltered = n_prefilter_accepted = 0; memset(kinds_done, 0, sizeof kinds_done);
 
     /* control arm: the unfaulted file loads, runs and matches its reference */
     Outcome c0 = consume_vm(m->d, m->n);
@@ -234,6 +249,22 @@ static void fam_run(uint64_t seed, const RunOpts *o, Result *r) {
             Buf t = {0}; torn_write(src, f->a, &t); free(src);
             judge(r, "torn", t.d ? t.d : (uint8_t *)"", t.len, m->d, m->n, 0, f->a, (long)t.len);
             buf_free(&t); break; }
+        case FT_HDRBITS:   /* every single-bit alteration of the magic number and of the format version */
+            for (long bit = f->a; bit < f->b && bit < 64; bit++) { memcpy(w, m->d, m->n); w[bit / 8] ^= (uint8_t)(1u << (bit % 8)); if (!judge(r, bit < 32 ? "magic" : "version", w, m->n, m->d, m->n, f->via, bit, 0)) break; }
+            break;
+        case FT_BYTESWEEP: {
+            /* 255 x (b-a) damaged copies are first offered to the tree's own loader in-process (the harness links a copy of
+             * nvm_format.c compiled from the working tree); whatever that accepts is then given to a real nano_vm process */
+            bool stop = false;
+            for (long pos = f->a; pos < f->b && !stop; pos++) for (int mask = 1; mask < 256 && !stop; mask++) {
+                if ((size_t)pos >= m->n) break;
+                w[pos] = m->d[pos] ^ (uint8_t)mask;
+                NvmModule *lm = nvm_deserialize(w, (uint32_t)m->n);
+                n_prefiltered++;
+                if (lm) { nvm_module_free(lm); n_prefilter_accepted++; if (!judge(r, "burst", w, m->n, m->d, m->n, 0, pos * 8, mask)) stop = true; }
+                w[pos] = m->d[pos];
+            }
+            break; }
         case FT_FLIPRANGE:
             for (long bit = f->a; bit < f->b; bit++) { memcpy(w, m->d, m->n); w[bit / 8] ^= (uint8_t)(1u << (bit % 8)); if (!judge(r, "flip", w, m->n, m->d, m->n, 0, bit, 0)) break; }
             break;
@@ -246,6 +277,7 @@ static void fam_run(uint64_t seed, const RunOpts *o, Result *r) {
     r->nontrivial = n_inst > 0;
     snprintf(r->class_key, sizeof r->class_key, "%s.%d/%llu", P.prog, P.tok, (unsigned long long)seed);
     probe(r, "fault_instances", n_inst); probe(r, "true_crc_collisions_skipped", n_collision); probe(r, "unchanged_skipped", n_unchanged);
+    probe(r, "inbyte_bursts_offered_to_loader", n_prefiltered); probe(r, "inbyte_bursts_loader_accepted", n_prefilter_accepted);
     probe(r, "via_daemon", n_daemon); probe(r, "control_arm_ok", 1); probe(r, "exhaustive_sweep_chunks", P.sweep);
     { uint64_t total = 0; for (int tk = 0; tk < 2; tk++) for (int i = 0; i < corpus_nprogs(); i++) { Module *cm = corpus_find(corpus_prog(i), tk); if (cm) total += ((uint64_t)(cm->n - NVM_HEADER_SIZE) * 8 + 511) / 512; }
       buf_printf(&r->extra, "\"sweep_total_chunks\":%llu", (unsigned long long)total); }
